@@ -33,6 +33,8 @@ def bind_repo():
     os.environ[GUARD] = "1"
     if sys.path[0] != REPO:
         sys.path.insert(0, REPO)
+    import logging
+    logging.disable(logging.CRITICAL)       # the library logs skipped packets etc.; observations do not use logging
     import space_packet_parser  # noqa
     f = os.path.abspath(space_packet_parser.__file__)
     if not f.startswith(os.path.abspath(REPO) + os.sep):
